@@ -66,9 +66,10 @@ func zzC04NoPanic(ds []zzC04Decoder) {
 	d := ds[i]
 	buf := zzsym.BytesUpTo("buf", zzsym.Param("B_"+d.name))
 	if first := zzsym.Param("FIRST"); first >= 0 {
-		// input class "buffers whose first byte is FIRST" (e.g. 0xFF: a 9-byte count prefix), used where the
-		// fully arbitrary buffer of that size has too many paths
-		zzsym.Assume(len(buf) >= 1 && buf[0] == byte(first))
+		// input class "buffers whose byte at offset AT is FIRST" (e.g. 0xFF where a count starts: a 9-byte count
+		// prefix), used where the fully arbitrary buffer of that size has too many paths
+		at := zzsym.Param("AT")
+		zzsym.Assume(len(buf) > at && buf[at] == byte(first))
 	}
 	src := common.NewZeroCopySource(buf)
 	err := d.dec(src)
@@ -358,10 +359,32 @@ func ZZ_C04_SCM_DecodeNoPanic_witness() {
 }
 
 // The two decoders below allocate make([][]byte, l) with l read from the input: kept in harnesses of their own.
+// CLASS=1 restricts the input to buffers that start with an empty redeem script (00) and a one-byte chain id,
+// i.e. the signature count starts at offset 2 (combined with AT=2, FIRST=255: a 9-byte count).
 func ZZ_C04_SCM_DecodeNoPanic_BtcTxParam() {
-	zzC04NoPanic([]zzC04Decoder{{"BtcTxParam", new(BtcTxParam).Deserialization}})
+	class := zzsym.Param("CLASS")
+	zzC04NoPanic([]zzC04Decoder{{"BtcTxParam", func(src *common.ZeroCopySource) error {
+		if b := src.Bytes(); class == 1 {
+			zzsym.Assume(len(b) >= 2 && b[0] == 0 && b[1] < 0xFD)
+		}
+		return new(BtcTxParam).Deserialization(src)
+	}}})
 }
 
 func ZZ_C04_SCM_DecodeNoPanic_RippleExtraInfo() {
 	zzC04NoPanic([]zzC04Decoder{{"RippleExtraInfo", new(RippleExtraInfo).Deserialization}})
+}
+
+func ZZ_C04_SCM_DecodeNoPanic_BtcTxParam_witness() {
+	buf := zzsym.BytesUpTo("buf", 7)
+	p := new(BtcTxParam)
+	err := p.Deserialization(common.NewZeroCopySource(buf))
+	zzsym.Assert(err != nil || len(p.Sigs) != 1 || p.Detial.FeeRate != 9, "witness: some buffer decodes to a one-signature parameter with fee rate 9")
+}
+
+func ZZ_C04_SCM_DecodeNoPanic_RippleExtraInfo_witness() {
+	buf := zzsym.BytesUpTo("buf", 48)
+	p := new(RippleExtraInfo)
+	err := p.Deserialization(common.NewZeroCopySource(buf))
+	zzsym.Assert(err != nil || p.Quorum != 3 || len(p.Pks) != 1, "witness: some buffer decodes to a quorum-3 record with one key")
 }
